@@ -23,7 +23,7 @@ def card_domain(chk, f: Folder):
 
 def run(chk):
     repo = chk.repo
-    f = Folder(repo)
+    f = Folder(repo, allow_loops=True, max_steps=400000)
     chk.explanation = (
         'Table extraction by constant folding of the converter functions over their complete finite domains '
         '(52 cards, 38 calls, 4 seats, 4 vulnerabilities and their spellings, 35x3 contracts x 4 vulnerabilities x '
